@@ -2,6 +2,7 @@ use crate::common::Prop;
 pub mod c10;
 pub mod c11;
 pub mod c15;
+pub mod c17;
 pub mod c18;
 
 pub fn lookup(id: &str) -> Option<&'static dyn Prop> {
@@ -9,6 +10,7 @@ pub fn lookup(id: &str) -> Option<&'static dyn Prop> {
         "C10" => Some(&c10::C10),
         "C11" => Some(&c11::C11),
         "C15" => Some(&c15::C15),
+        "C17" => Some(&c17::C17),
         "C18" => Some(&c18::C18),
         _ => None,
     }
